@@ -90,6 +90,9 @@ int main(void)
     {
       uint8_t* p = yr_notebook_alloc(nb, 12); /* second and third allocation need a new page */
       if (p != NULL) memset(p, 0xAA, 12);
+#ifndef VF_CONTINUE_AFTER_FAILURE /* what every caller in libyara does: give up and destroy the notebook later */
+      else break;
+#endif
     }
     yr_notebook_destroy(nb);
   }
